@@ -140,6 +140,7 @@ type baseSet struct {
 	src     []itemJ
 	ids     []int
 	markers []string
+	hot     []int // ids inside / at the edge of / just after a skip:N or skipAfter window
 }
 
 func genBase(r *rand.Rand, wantMarkers bool) baseSet {
@@ -209,12 +210,64 @@ func genBase(r *rand.Rand, wantMarkers bool) baseSet {
 			b.markers = append(b.markers, "MK2")
 		}
 	}
+	if r.Intn(5) < 2 {
+		// a skip:N rule (N = 1..3) that fires always; the rules inside, at the edge of and just after its
+		// window are the ones the directive / ctl should hit (a removed rule must not count)
+		k := r.Intn(len(b.src))
+		for tries := 0; tries < 4 && (b.src[k].Marker != "" || k+1 >= len(b.src)); tries++ {
+			k = r.Intn(len(b.src))
+		}
+		if b.src[k].Marker == "" && k+1 < len(b.src) {
+			n := 1 + r.Intn(3)
+			h := &b.src[k].Links[0]
+			h.Targets, h.Op = []titemJ{{Var: "REQUEST_METHOD", Key: keyJ{K: "none"}}}, opJ{K: "always"}
+			b.src[k].Links = b.src[k].Links[:1]
+			for a := range h.Acts {
+				if h.Acts[a].A == "disr" {
+					h.Acts[a].V = "pass"
+				}
+			}
+			h.Acts = append(h.Acts, actJ{A: "skip", N: n})
+			// same phase for most of the following rules: skip counts rules of the running phase only
+			for j := k + 1; j < len(b.src) && j <= k+n+2; j++ {
+				if b.src[j].Marker == "" {
+					if r.Intn(4) != 0 {
+						b.src[j].Phase = b.src[k].Phase
+					}
+					b.hot = append(b.hot, b.src[j].ID)
+				}
+			}
+		}
+	}
+	if wantMarkers {
+		// rules between the skipAfter rule and its marker, and the one just after it
+		seen := false
+		for j := range b.src {
+			if b.src[j].Marker != "" {
+				if j+1 < len(b.src) && b.src[j+1].Marker == "" {
+					b.hot = append(b.hot, b.src[j+1].ID)
+				}
+				break
+			}
+			for _, a := range b.src[j].Links[0].Acts {
+				if a.A == "skipAfter" {
+					seen = true
+				}
+			}
+			if seen {
+				b.hot = append(b.hot, b.src[j].ID)
+			}
+		}
+	}
 	return b
 }
 
 func (b baseSet) someID(r *rand.Rand) int {
 	if r.Intn(12) == 0 {
 		return 15 + r.Intn(4) // unknown id
+	}
+	if len(b.hot) > 0 && r.Intn(2) == 0 {
+		return b.hot[r.Intn(len(b.hot))]
 	}
 	return b.ids[r.Intn(len(b.ids))]
 }
